@@ -189,15 +189,15 @@ Proof.
     destruct (preprocess (p_metric p) v) as [w|] eqn:Hp; cbn [fst].
     2:{ split; [exact Htr|]. split; [eauto|]. split; [exact Hlive|].
         split; intros; cbn [memz]; apply orb_true_iff; right; auto. }
-    rewrite Hk. cbn [uses_lists]. rewrite Hl. cbn [app_nth Z.to_nat].
+    assert (Hnd : memz id (st_deleted s) = false).
+    { destruct (memz id (st_deleted s)) eqn:E; [|reflexivity]. apply Hdel in E. congruence. }
+    rewrite Hk, Hnd. cbn [uses_lists]. rewrite Hl. cbn [app_nth Z.to_nat].
     split; [reflexivity|]. split; [eexists; reflexivity|].
     assert (Hae : all_entries s = l) by (unfold all_entries; rewrite Hl; cbn; apply app_nil_r).
     split.
     + unfold live_view, all_entries in *. cbn [st_lists st_deleted concat]. rewrite app_nil_r.
       rewrite Hl in Hlive. cbn [concat] in Hlive. rewrite app_nil_r in Hlive.
       rewrite filter_app, map_app, Hlive. cbn [filter e_id].
-      assert (Hnd : memz id (st_deleted s) = false).
-      { destruct (memz id (st_deleted s)) eqn:E; [|reflexivity]. apply Hdel in E. congruence. }
       rewrite Hnd. reflexivity.
     + split.
       * intros i Hi. cbn [st_deleted] in Hi. cbn [memz]. apply orb_true_iff. right. auto.
